@@ -1507,13 +1507,30 @@ def patched_numpy(extra=()):
                     return SymArray(d, dt_of(fill))
                 raise EngineGap('np.%s with symbolic arguments' % name)
             r = orig(*args, **kw)
-            if isinstance(r, np.ndarray) and r.dtype.kind in 'fc' and S.RUNNING[0]:
+            if isinstance(r, np.ndarray) and r.dtype.kind in 'fc' and S.RUNNING[0] \
+                    and '/pb_bss/' in sys._getframe(1).f_code.co_filename:
+                # only arrays created by repository code become symbolic-capable; C extensions (numpy.random,
+                # scipy, sklearn) that look np.empty up at run time must get real ndarrays
                 return SymArray(obj(r), r.dtype)
             return r
         f.__name__ = name
         patch(np, name, f)
     for n in ('zeros', 'ones', 'empty', 'full', 'eye'):
         creator(n)
+    def guarded(fn):
+        def g(*a, **k):
+            was = S.RUNNING[0]
+            S.RUNNING[0] = False        # numpy.random is Cython: it calls np.empty by attribute and needs real ndarrays
+            try:
+                return fn(*a, **k)
+            finally:
+                S.RUNNING[0] = was
+        g.__name__ = getattr(fn, '__name__', 'guarded')
+        return g
+    for n in ('uniform', 'normal', 'randn', 'rand', 'randint', 'dirichlet', 'choice', 'permutation', 'random',
+              'multivariate_normal', 'standard_normal', 'shuffle', 'random_sample'):
+        if hasattr(np.random, n):
+            patch(np.random, n, guarded(getattr(np.random, n)))
     for mod, name, f in extra:
         patch(mod, name, f)
     try:
